@@ -2088,6 +2088,20 @@ fn bcf_case(ctx: &mut Ctx, sub: u64) {
     });
     ctx.eval(if v.recs.len() > 1 { Some(fnv(format!("{case} r").as_bytes())) } else { None });
     same(ctx, "bcf-async-reader", if via_stream { "BCF records()" } else { "BCF read_record" }, &sync, &asy, &format!("schedule {sname}, workers {rworkers}"), &case);
+    // one file in four is made "foreign": the stored rlen of every other record is replaced by a value that
+    // disagrees with the record's own end (REF length / INFO END / SVLEN). The sync query derives the end
+    // from the record and the header; the async query must give the same answers on the same bytes.
+    let file = if rng.chance(1, 4) {
+        match bcf_with_foreign_rlen(&file, &mut rng) {
+            Some(f) => {
+                ctx.bump("bcf_query_file_with_foreign_rlen");
+                f
+            }
+            None => file,
+        }
+    } else {
+        file
+    };
     // ---- CSI index by a sync scan (as bcf::fs::index does), index I/O, queries
     let index: csi::Index = {
         use vcf::variant::Record as _;
@@ -2121,10 +2135,12 @@ fn bcf_case(ctx: &mut Ctx, sub: u64) {
     let mut sync = vec![];
     {
         let mut r = bcf::io::Reader::new(std::io::Cursor::new(file.clone()));
-        let _ = r.read_header();
+        // the header as the BCF reader delivers it: only that one carries the string maps a query resolves
+        // the region's name with (a header parsed from VCF text has none: every query would be refused)
+        let Ok(bcf_header) = r.read_header() else { return };
         for region in &regions {
             sync.push(format!("query {region}"));
-            match r.query(&v.header, &index, region) {
+            match r.query(&bcf_header, &index, region) {
                 Ok(qr) => {
                     for x in qr.records() {
                         match x {
@@ -2148,7 +2164,10 @@ fn bcf_case(ctx: &mut Ctx, sub: u64) {
             let mut t = vec![];
             let inner = bgzf::r#async::io::reader::Builder::default().set_worker_count(NonZero::new(qworkers).unwrap()).build_from_reader(s);
             let mut r = bcf::r#async::io::Reader::from(inner);
-            let _ = r.read_header().await;
+            let hdr = match r.read_header().await {
+                Ok(h) => h,
+                Err(_) => hdr,
+            };
             for region in &regions2 {
                 t.push(format!("query {region}"));
                 match r.query(&hdr, &ix2, region) {
@@ -2170,9 +2189,41 @@ fn bcf_case(ctx: &mut Ctx, sub: u64) {
         })
     });
     ctx.eval(if v.recs.len() > 1 { Some(fnv(format!("{case} q").as_bytes())) } else { None });
+    ctx.bump(&format!("bcf_query_lines:{}", if sync.iter().any(|l| l == "END") { "answered" } else { "all-refused" }));
     let cls = query_class("bcf", &sync, &asy, &starts);
     same(ctx, &cls, "BCF queries on one shared reader", &sync, &asy, &format!("schedule {sname}, workers {qworkers}"), &case);
     ctx.bump("fmt_bcf");
+}
+
+/// the same BCF file with the `rlen` field of every other record overwritten (1, or 100 000 more than stored)
+fn bcf_with_foreign_rlen(file: &[u8], rng: &mut Rng) -> Option<Vec<u8>> {
+    use std::io::{Read as _, Write as _};
+    let mut raw = vec![];
+    bgzf::io::Reader::new(file).read_to_end(&mut raw).ok()?;
+    if raw.len() < 9 || &raw[..3] != b"BCF" {
+        return None;
+    }
+    let l_text = u32::from_le_bytes(raw[5..9].try_into().ok()?) as usize;
+    let mut k = 9 + l_text;
+    let mut i = 0;
+    while k + 8 <= raw.len() {
+        let l_shared = u32::from_le_bytes(raw[k..k + 4].try_into().ok()?) as usize;
+        let l_indiv = u32::from_le_bytes(raw[k + 4..k + 8].try_into().ok()?) as usize;
+        if l_shared < 24 || k + 8 + l_shared + l_indiv > raw.len() {
+            return None;
+        }
+        if i % 2 == 0 {
+            let at = k + 8 + 8;
+            let rlen = i32::from_le_bytes(raw[at..at + 4].try_into().ok()?);
+            let new = if rng.chance(1, 2) { 1 } else { rlen.saturating_add(100_000) };
+            raw[at..at + 4].copy_from_slice(&new.to_le_bytes());
+        }
+        i += 1;
+        k += 8 + l_shared + l_indiv;
+    }
+    let mut w = bgzf::io::Writer::new(Vec::new());
+    w.write_all(&raw).ok()?;
+    w.finish().ok()
 }
 
 // ------------------------------------------------------------------ CRAM
